@@ -130,6 +130,8 @@ def rewrite_source(rel, subs):
     with open(path, "w", encoding="utf8") as f:
         f.write("//line %s:1\n" % os.path.join(REPO, rel))
         f.write(src)
+        if _re.search(r'^\s*"time"\s*$', src, _re.M):
+            f.write("\nvar _ = time.Now // keeps the import used after a rewrite\n")
     return path, counts
 
 
